@@ -20,6 +20,14 @@ export CARGO_NET_OFFLINE=true
 ) 9>"$ROOT/.lock-crate-$TAG"
 cd "$CRATE"
 TGT=$ROOT/target-$VARIANT
+BIN=$ROOT/bin-$TAG
+mkdir -p "$BIN"
+case "$VARIANT" in
+  rel) OUT=$TGT/release/ppdrv ;;
+  chk) OUT=$TGT/chk/ppdrv ;;
+  asan|tsan) OUT=$TGT/x86_64-unknown-linux-gnu/release/ppdrv ;;
+  *) echo "unknown variant $VARIANT" >&2; exit 2 ;;
+esac
 (
   flock 9
   case "$VARIANT" in
@@ -27,11 +35,9 @@ TGT=$ROOT/target-$VARIANT
     chk)  CARGO_TARGET_DIR=$TGT cargo build --offline --profile chk -q 2>"$ROOT/build-$VARIANT-$TAG.log" ;;
     asan) CARGO_TARGET_DIR=$TGT RUSTFLAGS="-Zsanitizer=address -Cforce-frame-pointers=yes" cargo +nightly build --offline --release --target x86_64-unknown-linux-gnu -q 2>"$ROOT/build-$VARIANT-$TAG.log" ;;
     tsan) CARGO_TARGET_DIR=$TGT RUSTFLAGS="-Zsanitizer=thread" cargo +nightly build --offline --release -Zbuild-std --target x86_64-unknown-linux-gnu -q 2>"$ROOT/build-$VARIANT-$TAG.log" ;;
-    *) echo "unknown variant $VARIANT" >&2; exit 2 ;;
-  esac
+  esac || exit 3
+  # the target directory is shared between trees under test (different VERIF_REPO paths): keep a private copy of the
+  # binary per tree, taken under the same lock as the build, so that concurrent checks can never run each other's binary
+  cp -f "$OUT" "$BIN/ppdrv-$VARIANT.tmp.$$" && mv -f "$BIN/ppdrv-$VARIANT.tmp.$$" "$BIN/ppdrv-$VARIANT"
 ) 9>"$ROOT/.lock-target-$VARIANT" || { echo "BUILD FAILED ($VARIANT):" >&2; tail -30 "$ROOT/build-$VARIANT-$TAG.log" >&2; exit 3; }
-case "$VARIANT" in
-  rel) echo "$TGT/release/ppdrv" ;;
-  chk) echo "$TGT/chk/ppdrv" ;;
-  asan|tsan) echo "$TGT/x86_64-unknown-linux-gnu/release/ppdrv" ;;
-esac
+echo "$BIN/ppdrv-$VARIANT"
